@@ -73,7 +73,7 @@ def _build(case, seed, shift):
         return m, [case["features"]], None, "R"
     spec = zoo.reseed(case["spec"], shift)
     b = zoo.build(spec, case["shape"], case.get("ctx"))
-    if kind == "flow" and len(b.out_shape) == 1:
+    if kind == "flow" and len(b.out_shape) == 1 and len(b.in_shape) == 1:
         D = b.out_shape[0]
         ctxk = case.get("ctx")
         if case["base"] == "conditional" and ctxk is not None:
